@@ -9,10 +9,13 @@
 //!   desc  := 'i' decimal | 'bt' | 'bf' | 'f' 16 hex digits (f64 bits) | 's' hex(utf8) | 'd' hex(datetime text)
 //!   (hex of the empty string is `-`).  The root must be a table.
 //!   Output (one line):
-//!     vdoc=<doc> pdoc=<doc> tdoc=<doc> vdisp=<shape> rb=<value> fix=.. pp=.. dec=.. tfix=.. det=.. # text=<hex> ptext=<hex> ttext=<hex>
+//!     vdoc=<doc> pdoc=<doc> tdoc=<doc> sdoc=<doc> vdisp=<shape> rb=<value> fix=.. pp=.. dec=.. tfix=.. sdec=.. s2fix=.. det=.. # text=<hex> ptext=<hex> ttext=<hex> stext=<hex>
 //!   vdoc  : section structure of toml::to_string(&Value::Table(t))      read off the TEXT
 //!   pdoc  : section structure of toml::to_string_pretty(&Value::Table(t))
 //!   tdoc  : section structure of t.to_string()  (Display for Table = to_string(&t): no three-pass at the root)
+//!   sdoc  : section structure of toml::to_string(&Plain(v)) where `Plain` serializes the same tree like a
+//!           struct / map that keeps its own order at every level (no three loops anywhere)
+//!   sdec  : from_str(that text) == v;  s2fix: the Value read from it prints to a text that is a fixed point
 //!   vdisp : shape of Value::Table(t).to_string() (Display for Value: one inline value)
 //!   rb    : toml::from_str::<Value>(text) in the map's iteration order, in the tree encoding
 //!   fix   : to_string(from_str(text)) == text;  pp: from_str(plain) == from_str(pretty);
@@ -126,6 +129,34 @@ fn read_value(r: &mut Rd<'_>) -> Option<Value> {
             Some(Value::Table(t))
         }
         _ => None,
+    }
+}
+
+/// the same tree serialized the way a derived struct / a plain map does it: one `serialize_entry`
+/// per entry in the container's own order, at every level (no `impl Serialize for Value` anywhere
+/// but at the leaves)
+struct Plain<'a>(&'a Value);
+
+impl serde::Serialize for Plain<'_> {
+    fn serialize<S: serde::Serializer>(&self, s: S) -> Result<S::Ok, S::Error> {
+        use serde::ser::{SerializeMap, SerializeSeq};
+        match self.0 {
+            Value::Table(t) => {
+                let mut m = s.serialize_map(Some(t.len()))?;
+                for (k, v) in t {
+                    m.serialize_entry(k, &Plain(v))?;
+                }
+                m.end()
+            }
+            Value::Array(a) => {
+                let mut q = s.serialize_seq(Some(a.len()))?;
+                for v in a {
+                    q.serialize_element(&Plain(v))?;
+                }
+                q.end()
+            }
+            leaf => leaf.serialize(s),
+        }
     }
 }
 
@@ -322,12 +353,31 @@ fn cmd_val(args: &Args) -> String {
         return "ser-error".to_string();
     };
     let ttext = t.to_string();
+    let Ok(stext) = toml::to_string(&Plain(&v)) else {
+        return "ser-error".to_string();
+    };
     let vdisp = v.to_string();
     let det = toml::to_string(&v).ok().as_deref() == Some(&text)
         && toml::to_string_pretty(&v).ok().as_deref() == Some(&ptext)
         && t.to_string() == ttext
         && v.to_string() == vdisp
-        && toml::to_string(t).ok().as_deref() == Some(&ttext);
+        && toml::to_string(t).ok().as_deref() == Some(&ttext)
+        && toml::to_string(&Plain(&v)).ok().as_deref() == Some(&stext);
+    let sback = toml::from_str::<Value>(&stext);
+    let sdec = match &sback {
+        Ok(b) => *b == v,
+        Err(_) => false,
+    };
+    let s2fix = match &sback {
+        Ok(b) => match toml::to_string(b) {
+            Ok(t2) => match toml::from_str::<Value>(&t2) {
+                Ok(b2) => toml::to_string(&b2).ok().as_deref() == Some(&t2),
+                Err(_) => false,
+            },
+            Err(_) => false,
+        },
+        Err(_) => false,
+    };
     let back = toml::from_str::<Value>(&text);
     let pback = toml::from_str::<Value>(&ptext);
     let rb = match &back {
@@ -366,20 +416,24 @@ fn cmd_val(args: &Args) -> String {
         Err(_) => "UNREADABLE".to_string(),
     };
     format!(
-        "vdoc={} pdoc={} tdoc={} vdisp={} rb={} fix={} pp={} dec={} tfix={} det={} # text={} ptext={} ttext={}",
+        "vdoc={} pdoc={} tdoc={} sdoc={} vdisp={} rb={} fix={} pp={} dec={} tfix={} sdec={} s2fix={} det={} # text={} ptext={} ttext={} stext={}",
         show_doc(&text),
         show_doc(&ptext),
         show_doc(&ttext),
+        show_doc(&stext),
         vd,
         rb,
         flag(fix),
         flag(pp),
         flag(dec),
         flag(tfix),
+        flag(sdec),
+        flag(s2fix),
         flag(det),
         hex(text.as_bytes()),
         hex(ptext.as_bytes()),
-        hex(ttext.as_bytes())
+        hex(ttext.as_bytes()),
+        hex(stext.as_bytes())
     )
 }
 
